@@ -176,7 +176,10 @@ Definition vown (v : vnew) : list block_id :=
 Definition oown (o : option vnew) : list block_id := match o with Some v => vown v | None => [] end.
 Definition wown (w : world) : list block_id := psown (w_prm w) ++ flat_map oown (w_new w).
 
-Definition cfgok (ps : list prm) : Prop := forall i o, pother (pkd (nth i ps pdummy)) = Some o -> o < i.
+(* parameters are in creation order, and a parameter that records a frequency count has its frequency vector *)
+Definition cfgok (ps : list prm) : Prop :=
+  (forall i o, pother (pkd (nth i ps pdummy)) = Some o -> o < i) /\
+  (forall i, pfn (nth i ps pdummy) <> 0 -> pfv (nth i ps pdummy) <> None).
 
 Lemma nth_upd_eq : forall A (l : list A) n v d, n < length l -> nth n (upd l n v) d = v.
 Proof. induction l; destruct n; simpl; intros; try lia; auto. apply IHl; lia. Qed.
@@ -224,12 +227,18 @@ Proof.
   - destruct (Nat.eq_dec u i) as [->|Hne]; [rewrite nth_upd_eq by auto; auto | rewrite nth_upd_ne by auto; auto].
   - rewrite upd_short by lia; auto.
 Qed.
-Lemma cfgok_upd : forall ps u p', cfgok ps -> pkd p' = pkd (nth u ps pdummy) -> cfgok (upd ps u p').
-Proof. intros ps u p' H He i o Ho. rewrite pkd_upd in Ho by auto. apply H; auto. Qed.
+Lemma cfgok_upd : forall ps u p', cfgok ps -> pkd p' = pkd (nth u ps pdummy) -> (pfn p' <> 0 -> pfv p' <> None) -> cfgok (upd ps u p').
+Proof.
+  intros ps u p' [H1 H2] He Hv. split.
+  - intros i o Ho. rewrite pkd_upd in Ho by auto. apply H1; auto.
+  - intros i. destruct (Nat.ltb_spec u (length ps)).
+    + destruct (Nat.eq_dec u i) as [->|Hne]; [rewrite nth_upd_eq by auto; auto | rewrite nth_upd_ne by auto; apply H2].
+    + rewrite upd_short by lia. apply H2.
+Qed.
 Lemma cfgok_hold : forall ps i, cfgok ps -> cfgok (hold ps i).
-Proof. intros; unfold hold; apply cfgok_upd; auto. Qed.
+Proof. intros ps i H; unfold hold; apply cfgok_upd; auto. simpl. apply (proj2 H). Qed.
 Lemma cfgok_release : forall ps i, cfgok ps -> cfgok (release ps i).
-Proof. intros; unfold release; apply cfgok_upd; auto. Qed.
+Proof. intros ps i H; unfold release; apply cfgok_upd; auto. simpl. apply (proj2 H). Qed.
 Lemma cfgok_release_all : forall ks ps, cfgok ps -> cfgok (release_all ps ks).
 Proof. induction ks; simpl; intros; auto. apply IHks, cfgok_release; auto. Qed.
 Lemma length_hold : forall ps i, length (hold ps i) = length ps.
@@ -255,25 +264,27 @@ Proof.
 Qed.
 
 Lemma li_set_m_error : forall F v ps a s, Post F v ps s ->
-  safe (set_m_error NFixed v a) s (fun r s' => Post F (fst r) ps s').
+  safe (set_m_error NFixed v a) s (fun r s' => Post F (fst r) ps s' /\ (snd r <> Done -> fst r = v) /\ vn_unk (fst r) = vn_unk v).
 Proof.
   intros F v ps a s [HL [Ht Hc]]. unfold set_m_error. destruct a as [| | |n].
-  - apply safe_ret; split; auto.
+  - apply safe_ret; simpl; split; [split|split]; auto.
   - apply safe_bind.
     assert (He : forall x, cnt x (vown v ++ psown ps ++ F) = cnt x (optl (vn_merr v)) + cnt x (vown (set_merr v None) ++ psown ps ++ F)).
     { unfold vown; simpl. ms. }
     eapply safe_weaken; [exact (li_free_opt _ _ s (vn_merr v) HL He)|].
-    intros u s' HL'. apply safe_ret; simpl. split; auto.
-  - apply safe_ret; split; auto.
-  - destruct (vn_fvalid v); simpl; [|apply safe_ret; split; auto].
+    intros u s' HL'. apply safe_ret; simpl. split; [split; auto | split; [intro H; congruence | reflexivity]].
+  - apply safe_ret; simpl; split; [split|split]; auto.
+  - destruct (vn_fvalid v); simpl; [|apply safe_ret; simpl; split; [split|split]; auto].
+    apply safe_bind. eapply safe_weaken; [apply li_spline_calcs; exact HL|]. intros [|] s0 HL0; simpl;
+      [|apply safe_ret; simpl; split; [split|split]; auto].
     apply safe_bind. destruct (vn_merr v) as [b|] eqn:Hm.
     + apply safe_ret. apply safe_bind.
       assert (Hb : 1 <= cnt b (vown v ++ psown ps ++ F)).
       { unfold vown; rewrite Hm. autorewrite with cntdb. rewrite ind_same. lia. }
       destruct (0 <? c_freqs (vn_cfg v)).
       * rewrite Hm. eapply safe_weaken; [eapply li_touch; eauto|]. intros u s' ->.
-        apply safe_bind. eapply safe_weaken; [apply li_spline_calcs; eauto|]. intros ok s' HL'. apply safe_ret; simpl; split; auto.
-      * apply safe_ret. apply safe_bind. eapply safe_weaken; [apply li_spline_calcs; eauto|]. intros ok s' HL'. apply safe_ret; simpl; split; auto.
+        apply safe_ret; simpl; split; [split; auto | split; [intro H; congruence | reflexivity]].
+      * apply safe_ret. apply safe_ret; simpl; split; [split; auto | split; [intro H; congruence | reflexivity]].
     + apply safe_bind. eapply safe_weaken; [apply li_malloc; eauto|]. intros [b|] s' HL'.
       * apply safe_ret. apply safe_bind.
         assert (HL2 : LI (vown (set_merr v (Some b)) ++ psown ps ++ F) s').
@@ -281,37 +292,17 @@ Proof.
         destruct (0 <? c_freqs (vn_cfg v)).
         -- simpl. eapply safe_weaken; [eapply li_touch; [exact HL2|]|].
            { unfold vown; simpl. autorewrite with cntdb. rewrite ind_same. lia. }
-           intros u s'' ->.
-           apply safe_bind. eapply safe_weaken; [apply li_spline_calcs; eauto|]. intros ok s'' HL''. apply safe_ret; simpl; split; auto.
-        -- apply safe_ret. apply safe_bind. eapply safe_weaken; [apply li_spline_calcs; eauto|]. intros ok s'' HL''. apply safe_ret; simpl; split; auto.
-      * apply safe_ret. apply safe_ret; simpl; split; auto.
+           intros u s'' ->. apply safe_ret; simpl; split; [split; auto | split; [intro H; congruence | reflexivity]].
+        -- apply safe_ret. apply safe_ret; simpl; split; [split; auto | split; [intro H; congruence | reflexivity]].
+      * apply safe_ret. apply safe_ret; simpl; split; [split|split]; auto.
 Qed.
 
-(* the call completes for every fault point; the ledger still equals what the world refers to *)
+(* vnacal_new_set_m_error, every argument class, every fault point, any state: the call completes, the ledger still equals
+   what the world refers to, and a call that does not succeed leaves the structure exactly as it was (DI90) *)
 Theorem new_merr_fault_clean_lemma : forall F v ps a s, Post F v ps s ->
-  exists v' o s', set_m_error NFixed v a s = Ok ((v', o), s') /\ Post F v' ps s'.
+  exists v' o s', set_m_error NFixed v a s = Ok ((v', o), s') /\ Post F v' ps s' /\ (o <> Done -> v' = v).
 Proof.
-  intros F v ps a s HP. destruct (li_set_m_error F v ps a s HP) as [[v' o] [s' [He HP']]]. exists v', o, s'; auto.
-Qed.
-
-(* without splines a failed vnacal_new_set_m_error leaves the structure as it was *)
-Theorem new_merr_atomic_lemma : forall v a s v' s', (a = MESet 0 \/ a = MEClear \/ a = MEBadCount \/ a = MEInvalid) ->
-  set_m_error NFixed v a s = Ok ((v', Err ENOMEM), s') -> v' = v.
-Proof.
-  intros v a s v' s' Ha H. unfold set_m_error in H.
-  destruct Ha as [Ha|[Ha|[Ha|Ha]]]; subst a; try (unfold ret in H; inversion H; fail).
-  - destruct (vn_fvalid v); cbn [negb] in H; [|unfold ret in H; inversion H].
-    unfold bind, ret in H. cbn [spline_calcs] in H. unfold ret in H.
-    destruct (vn_merr v) as [b|] eqn:Hm.
-    + destruct (0 <? c_freqs (vn_cfg v)).
-      * rewrite Hm in H. destruct (touch (Some b) s) as [[u s1]|]; inversion H.
-      * inversion H.
-    + destruct (malloc (Z.of_nat (c_freqs (vn_cfg v)) * 16) s) as [[[b|] s1]|]; try discriminate.
-      * destruct (0 <? c_freqs (vn_cfg v)).
-        -- cbn [set_merr vn_merr] in H. destruct (touch (Some b) s1) as [[u s2]|]; inversion H.
-        -- inversion H.
-      * inversion H; reflexivity.
-  - unfold bind, ret in H. destruct (free (vn_merr v) s) as [[u s1]|]; inversion H.
+  intros F v ps a s HP. destruct (li_set_m_error F v ps a s HP) as [[v' o] [s' [He [HP' [Ha _]]]]]. exists v', o, s'; auto.
 Qed.
 
 (* ---------------------------------------------------------------- refutations (bug shapes, non-atomic exits) *)
@@ -348,9 +339,9 @@ Proof.
   eexists; eexists; eexists. split; [vm_compute; reflexivity|]. split; vm_compute; reflexivity.
 Qed.
 
-(* as coded: when _vnacommon_spline_calc fails, vnacal_new_set_m_error returns -1 with a freshly allocated, zeroed vector installed *)
+(* before the repair DI90: when _vnacommon_spline_calc fails, vnacal_new_set_m_error returns -1 with a freshly allocated, zeroed vector installed *)
 Theorem new_merr_spline_not_atomic_refuted_lemma :
-  exists ks ops k w os s, wrun NFixed (mkW (mkprms ks) []) ops (start (Some k)) = Ok ((w, os), s) /\
+  exists ks ops k w os s, wrun NSplineLate (mkW (mkprms ks) []) ops (start (Some k)) = Ok ((w, os), s) /\
     last os Done = Err ENOMEM /\
     map (fun o => match o with Some v => match vn_merr v with Some _ => true | None => false end | None => false end) (w_new w) = [true].
 Proof.
@@ -381,7 +372,7 @@ Proof.
   - split.
     + split; [repeat constructor; simpl; intuition lia | simpl; intros x Hx; intuition lia].
     + intro x. change (cnt x [0; 1; 2; 3; 4; 5] = cnt x (rev [0; 1; 2; 3; 4; 5])). rewrite cnt_rev. reflexivity.
-  - intros i o Ho. destruct i as [|[|[|i]]]; simpl in Ho; try discriminate. destruct i; discriminate.
+  - split; [intros i o Ho | intros i Hi]; destruct i as [|[|[|i]]]; simpl in *; try discriminate; try congruence; destruct i; simpl in *; try discriminate; congruence.
 Qed.
 
 (* ---------------------------------------------------------------- vnacal_new_free *)
@@ -432,4 +423,554 @@ Theorem new_free_clean_lemma : forall F v ps s, LI (vown v ++ psown ps ++ F) s -
   exists ps' s', new_free v ps s = Ok (ps', s') /\ LI (psown ps' ++ F) s' /\ length ps' = length ps.
 Proof.
   intros F v ps s HL Hn. destruct (li_new_free F v ps s HL Hn) as [ps' [s' [He [H1 [_ H2]]]]]. exists ps', s'; auto.
+Qed.
+
+(* ---------------------------------------------------------------- _vnacal_new_get_parameter *)
+Lemma set_nodes_id : forall v, v = set_nodes v (vn_tab v) (vn_cap v) (vn_nodes v) (vn_unk v).
+Proof. destruct v; reflexivity. Qed.
+
+Ltac oms :=
+  let x := fresh "x" in
+  intro x; inst_all x; unfold vown; simpl; rewrite ?map_app; simpl; autorewrite with cntdb; rewrite ?psown_hold; try lia.
+
+Lemma tab_live : forall v t ps F, vn_tab v = Some t -> 1 <= cnt t (vown v ++ psown ps ++ F).
+Proof. intros v t ps F Ht. unfold vown; rewrite Ht. autorewrite with cntdb. rewrite ind_same. lia. Qed.
+
+(* every parameter on the unknown list exists *)
+Definition UOK (v : vnew) (ps : list prm) : Prop := forall u, In u (vn_unk v) -> u < length ps.
+
+Lemma uok_step : forall v1 ps1 i tb c nodes (b : bool), UOK v1 ps1 -> i < length ps1 ->
+  UOK (set_nodes v1 tb c nodes (if b then vn_unk v1 ++ [i] else vn_unk v1)) (hold ps1 i).
+Proof.
+  intros v1 ps1 i tb c nodes b Hu Hi u Hin. rewrite length_hold. simpl in Hin. destruct b; [|apply Hu; auto].
+  apply in_app_or in Hin. destruct Hin as [Hin|[<-|[]]]; [apply Hu; auto | auto].
+Qed.
+
+Definition GPost (F : list block_id) (v : vnew) (ps : list prm) (r : vnew * list prm * outcome) (s' : astate) : Prop :=
+  let '(v', ps', out) := r in
+  Post F v' ps' s' /\ length ps' = length ps /\ (exists t c n u, v' = set_nodes v t c n u) /\ (UOK v ps -> UOK v' ps').
+
+Lemma li_get_parameter : forall fuel F v ps i s, Post F v ps s -> (i < fuel \/ (length ps <= i /\ 0 < fuel)) ->
+  safe (get_parameter NFixed fuel v ps i) s (GPost F v ps).
+Proof.
+  induction fuel as [|f IH]; intros F v ps i s HP Hf; [lia|].
+  pose proof HP as [HL [Ht Hc]]. simpl.
+  destruct (vn_tab v) as [t|] eqn:Htab; [|congruence].
+  destruct (in_hash v i).
+  { apply safe_bind. eapply safe_weaken; [eapply li_touch; [exact HL | apply tab_live; auto]|].
+    intros u s' ->. apply safe_ret. split; [exact HP|]. split; auto. split; [exists (vn_tab v), (vn_cap v), (vn_nodes v), (vn_unk v); apply set_nodes_id | auto]. }
+  destruct (Nat.leb_spec (length ps) i) as [Hge|Hlt].
+  { apply safe_ret. split; [exact HP|]. split; auto. split; [exists (vn_tab v), (vn_cap v), (vn_nodes v), (vn_unk v); apply set_nodes_id | auto]. }
+  apply safe_bind.
+  assert (Hrec : safe (match pkd (nth i ps pdummy) with
+                       | KCorr o => get_parameter NFixed f v ps o
+                       | _ => ret (v, ps, Done)
+                       end) s (GPost F v ps)).
+  { destruct (pkd (nth i ps pdummy)) as [|o|o] eqn:Hk.
+    - apply safe_ret. split; [exact HP|]. split; auto. split; [exists (vn_tab v), (vn_cap v), (vn_nodes v), (vn_unk v); apply set_nodes_id | auto].
+    - apply safe_ret. split; [exact HP|]. split; auto. split; [exists (vn_tab v), (vn_cap v), (vn_nodes v), (vn_unk v); apply set_nodes_id | auto].
+    - apply IH; auto. left. assert (o < i) by (apply (proj1 Hc); rewrite Hk; reflexivity). lia. }
+  eapply safe_weaken; [exact Hrec|]. clear Hrec.
+  intros [[v1 ps1] out] s1 [HP1 [Hlen1 [[t1 [c1 [n1 [u1 Hv1]]]] Hu1]]].
+  destruct out as [|e]; [|apply safe_ret; split; [exact HP1|]; split; auto; split; [exists t1, c1, n1, u1; exact Hv1 | exact Hu1]].
+  destruct HP1 as [HL1 [Ht1 Hc1]].
+  apply safe_bind. eapply safe_weaken; [apply li_malloc; exact HL1|].
+  intros [b|] s2 HL2.
+  2:{ apply safe_ret. split; [split; auto|]. split; auto. split; [exists t1, c1, n1, u1; exact Hv1 | exact Hu1]. }
+  destruct (vn_tab v1) as [tb|] eqn:Htab1; [|congruence].
+  apply safe_bind. eapply safe_weaken; [eapply li_touch; [exact HL2|]|].
+  { rewrite cnt_cons. pose proof (tab_live v1 tb ps1 F Htab1). lia. }
+  intros u s3 ->.
+  set (unk := if is_unknown (pkd (nth i ps pdummy)) then vn_unk v1 ++ [i] else vn_unk v1).
+  destruct (vn_cap v1 <=? length (vn_nodes v1 ++ [(i, b)])).
+  - apply safe_bind.
+    assert (He : forall x, cnt x (b :: vown v1 ++ psown ps1 ++ F) = ind x tb +
+              cnt x (b :: vn_blk v1 :: optl (vn_fvec v1) ++ map snd (vn_nodes v1) ++ optl (vn_sysv v1) ++ optl (vn_merr v1) ++
+                     vn_mblocks v1 ++ vn_eblocks v1 ++ vn_cal v1 ++ psown ps1 ++ F)).
+    { unfold vown. rewrite Htab1. ms. }
+    eapply safe_weaken; [exact (li_realloc _ _ s2 tb _ HL2 He)|].
+    intros [nb|] s4 HL4; apply safe_ret.
+    + split; [split; [|split]|].
+      * apply (LI_eq _ _ _ HL4). oms.
+      * simpl; discriminate.
+      * apply cfgok_hold; auto.
+      * split; [rewrite length_hold; auto|]. split; [subst v1; eexists; eexists; eexists; eexists; reflexivity|]. intro Hu; apply uok_step; [apply Hu1; exact Hu | lia].
+    + split; [split; [|split]|].
+      * apply (LI_eq _ _ _ HL4). rewrite <- Htab1. oms.
+      * simpl; congruence.
+      * apply cfgok_hold; auto.
+      * split; [rewrite length_hold; auto|]. split; [subst v1; eexists; eexists; eexists; eexists; reflexivity|]. intro Hu; apply uok_step; [apply Hu1; exact Hu | lia].
+  - apply safe_ret. split; [split; [|split]|].
+    * apply (LI_eq _ _ _ HL2). rewrite <- Htab1. oms.
+    * simpl; congruence.
+    * apply cfgok_hold; auto.
+    * split; [rewrite length_hold; auto|]. split; [subst v1; eexists; eexists; eexists; eexists; reflexivity|]. intro Hu; apply uok_step; [apply Hu1; exact Hu | lia].
+Qed.
+
+Lemma set_nodes_twice : forall v t c n u t' c' n' u', set_nodes (set_nodes v t c n u) t' c' n' u' = set_nodes v t' c' n' u'.
+Proof. reflexivity. Qed.
+
+Lemma li_get_parameters : forall l F v ps s, Post F v ps s -> safe (get_parameters NFixed v ps l) s (GPost F v ps).
+Proof.
+  induction l as [|i l IH]; intros F v ps s HP; simpl.
+  - apply safe_ret. split; [exact HP|]. split; auto. split; [exists (vn_tab v), (vn_cap v), (vn_nodes v), (vn_unk v); apply set_nodes_id | auto].
+  - apply safe_bind. eapply safe_weaken; [apply (li_get_parameter (S (length ps)) F v ps i s HP)|].
+    { destruct (Nat.ltb_spec i (S (length ps))); [left; auto | right; lia]. }
+    intros [[v1 ps1] out] s1 [HP1 [Hlen1 [[t1 [c1 [n1 [u1 Hv1]]]] Hu1]]].
+    destruct out as [|e].
+    + eapply safe_weaken; [apply (IH F v1 ps1 s1 HP1)|].
+      intros [[v2 ps2] out2] s2 [HP2 [Hlen2 [[t2 [c2 [n2 [u2 Hv2]]]] Hu2]]].
+      split; [exact HP2|]. split; [congruence|]. split; [subst v1 v2; exists t2, c2, n2, u2; reflexivity | intro Hu; apply Hu2, Hu1, Hu].
+    + apply safe_ret. split; [exact HP1|]. split; auto. split; [exists t1, c1, n1, u1; exact Hv1 | exact Hu1].
+Qed.
+
+(* ---------------------------------------------------------------- _vnacal_new_add_common *)
+Lemma li_add_standard : forall F v ps a s, Post F v ps s ->
+  safe (add_standard NFixed v ps a) s (fun r s' => let '(v', ps', out) := r in Post F v' ps' s' /\ length ps' = length ps /\ (UOK v ps -> UOK v' ps')).
+Proof.
+  intros F v ps a s HP. pose proof HP as [HL [Ht Hc]]. unfold add_standard.
+  destruct (is_bad (a_ok a)); [apply safe_ret; split; [exact HP | split; auto]|].
+  destruct (negb (forallb (check_parameter (S (length ps)) v ps) (a_prm a))); [apply safe_ret; split; [exact HP | split; auto]|].
+  apply safe_bind. eapply safe_weaken; [apply li_allocl; exact HL|].
+  intros [ok mb] s1 [new [Hmb HL1]]; simpl in Hmb; subst mb.
+  destruct ok; simpl.
+  2:{ apply safe_bind. eapply safe_weaken; [apply (li_frees new _ (vown v ++ psown ps ++ F) s1 HL1); ms|].
+      intros u s2 HL2. apply safe_ret. split; [split; auto | split; auto]. }
+  destruct (is_singular (a_ok a) || is_needfulls (a_ok a)).
+  { apply safe_bind. eapply safe_weaken; [apply (li_frees new _ (vown v ++ psown ps ++ F) s1 HL1); ms|].
+    intros u s2 HL2. apply safe_ret. split; [split; auto | split; auto]. }
+  apply safe_bind.
+  assert (HPm : Post (new ++ F) v ps s1).
+  { split; [|split; auto]. apply (LI_eq _ _ _ HL1). ms. }
+  eapply safe_weaken; [apply (li_get_parameters (a_prm a) (new ++ F) v ps s1 HPm)|].
+  intros [[v1 ps1] out] s2 [[HL2 [Ht2 Hc2]] [Hlen2 [_ Hu2]]].
+  destruct out as [|e].
+  2:{ apply safe_bind. eapply safe_weaken; [apply (li_frees new _ (vown v1 ++ psown ps1 ++ F) s2 HL2); ms|].
+      intros u s3 HL3. apply safe_ret. split; [split; auto | split; auto]. }
+  apply safe_bind. eapply safe_weaken; [apply li_allocl; exact HL2|].
+  intros [ok2 mb2] s3 [new2 [Hmb2 HL3]]; simpl in Hmb2; subst mb2.
+  destruct ok2; simpl.
+  2:{ apply safe_bind. eapply safe_weaken; [apply (li_frees (new ++ new2) _ (vown v1 ++ psown ps1 ++ F) s3 HL3); ms|].
+      intros u s4 HL4. apply safe_ret. split; [split; auto | split; auto]. }
+  apply safe_bind. eapply safe_weaken; [apply li_allocl; exact HL3|].
+  intros [ok3 eb] s4 [new3 [Heb HL4]]; simpl in Heb; subst eb.
+  destruct ok3; simpl.
+  2:{ apply safe_bind. eapply safe_weaken; [apply (li_frees new3 _ (new2 ++ vown v1 ++ psown ps1 ++ new ++ F) s4 HL4); ms|].
+      intros u s5 HL5.
+      apply safe_bind. eapply safe_weaken; [apply (li_frees (new ++ new2) _ (vown v1 ++ psown ps1 ++ F) s5 HL5); ms|].
+      intros u' s6 HL6. apply safe_ret. split; [split; auto | split; auto]. }
+  apply safe_ret. split; [split; [|split; auto] | split; [auto | exact Hu2]].
+  apply (LI_eq _ _ _ HL4). oms.
+Qed.
+
+(* ---------------------------------------------------------------- vnacal_new_alloc *)
+Definition NPost (F : list block_id) (ps : list prm) (r : option vnew * list prm * outcome) (s' : astate) : Prop :=
+  let '(ov, ps', out) := r in
+  LI (oown ov ++ psown ps' ++ F) s' /\ cfgok ps' /\ length ps' = length ps /\ (forall v', ov = Some v' -> vn_tab v' <> None /\ UOK v' ps').
+
+Lemma li_new_alloc : forall F c ps s, LI (psown ps ++ F) s -> cfgok ps ->
+  safe (new_alloc NFixed c ps) s (NPost F ps).
+Proof.
+  intros F c ps s HL Hc. unfold new_alloc.
+  assert (Hnone : forall o s', LI (psown ps ++ F) s' -> NPost F ps (None, ps, o) s').
+  { intros o s' H. split; [exact H|]. split; auto. split; auto. intros v' Hv; discriminate. }
+  assert (Hfree : forall v ps0 o s0, LI (vown v ++ psown ps0 ++ F) s0 -> (vn_tab v = None -> vn_nodes v = []) -> cfgok ps0 -> length ps0 = length ps ->
+            safe (ps' <- new_free v ps0 ;; ret (@None vnew, ps', o)) s0 (NPost F ps)).
+  { intros v ps0 o s0 H0 Hn Hc0 Hl0. apply safe_bind. eapply safe_weaken; [apply (li_new_free F v ps0 s0 H0 Hn)|].
+    intros ps' s' [H1 [H2 H3]]. apply safe_ret. split; [exact H1|]. split; auto. split; [congruence|]. intros v' Hv; discriminate. }
+  destruct (c_valid c); simpl; [|apply safe_ret; apply Hnone; auto].
+  apply safe_bind. eapply safe_weaken; [apply li_malloc; exact HL|]. intros [b|] s1 HL1; [|apply safe_ret; apply Hnone; auto].
+  apply safe_bind. eapply safe_weaken; [apply li_malloc; exact HL1|]. intros [fb|] s2 HL2.
+  2:{ apply Hfree; auto. }
+  apply safe_bind. change (realloc None (8 * 8)) with (malloc (8 * 8)).
+  eapply safe_weaken; [apply li_malloc; exact HL2|]. intros [tb|] s3 HL3.
+  2:{ apply Hfree; auto. apply (LI_eq _ _ _ HL3). oms. }
+  apply safe_bind.
+  set (v2 := set_nodes (mkVn c b (Some fb) false None 0 [] [] None None 0 [] [] [] []) (Some tb) 8 [] []).
+  assert (HP2 : Post F v2 ps s3).
+  { split; [|split; [simpl; discriminate | auto]]. apply (LI_eq _ _ _ HL3). oms. }
+  eapply safe_weaken; [apply (li_get_parameter (S (length ps)) F v2 ps 0 s3 HP2)|].
+  { destruct ps; [right; simpl; lia | left; simpl; lia]. }
+  intros [[v3 ps3] out] s4 [[HL4 [Ht4 Hc4]] [Hlen4 [[t [cp [n [u Hv3]]]] Hu3]]].
+  destruct out as [|e].
+  2:{ apply Hfree; auto. intro H; congruence. }
+  apply safe_bind. eapply safe_weaken; [apply li_malloc; exact HL4|]. intros [sb|] s5 HL5.
+  2:{ apply Hfree; auto. intro H; congruence. }
+  apply safe_ret. split; [|split; [auto | split; [auto|]]].
+  - apply (LI_eq _ _ _ HL5). subst v3. unfold oown. oms.
+  - intros v' Hv; inversion Hv; subst v'. simpl. split; [exact Ht4|]. apply Hu3. intros u0 [].
+Qed.
+
+(* ---------------------------------------------------------------- vnacal_new_solve *)
+Lemma li_allocl_len : forall szs acc own s, LI own s ->
+  safe (allocl szs acc) s (fun r s' => exists new, snd r = acc ++ new /\ LI (new ++ own) s' /\ (fst r = true -> length new = length szs)).
+Proof.
+  induction szs as [|sz szs IH]; intros acc own s HL; simpl.
+  - apply safe_ret. exists []; simpl; rewrite app_nil_r; auto.
+  - apply safe_bind. eapply safe_weaken; [apply li_malloc; eauto|].
+    intros [b|] s' HL'.
+    + eapply safe_weaken; [apply (IH (acc ++ [b]) (b :: own)); eauto|].
+      intros [ok got] s'' [new [Hs [HL'' Hlen]]]; simpl in *. exists (b :: new). split; [|split].
+      * rewrite Hs, <- app_assoc; reflexivity.
+      * eapply LI_eq; eauto. intro x; autorewrite with cntdb; lia.
+      * intro H; simpl; rewrite Hlen; auto.
+    + apply safe_ret. exists []; simpl; rewrite app_nil_r; split; [auto | split; [auto | discriminate]].
+Qed.
+
+Lemma li_write_back : forall unk freqs ps pv G s, LI (psown ps ++ pv ++ G) s -> cfgok ps ->
+  (forall u, In u unk -> u < length ps) -> length unk <= length pv ->
+  safe (write_back freqs ps unk pv) s (fun r s' => let '(ok, ps', pv') := r in
+        LI (psown ps' ++ pv' ++ G) s' /\ cfgok ps' /\ length ps' = length ps).
+Proof.
+  induction unk as [|u rest IH]; intros freqs ps pv G s HL Hc Hu Hlen; simpl.
+  - apply safe_ret; auto.
+  - destruct pv as [|g pv']; [simpl in Hlen; lia|].
+    assert (Hul : u < length ps) by (apply Hu; simpl; auto).
+    set (p := nth u ps pdummy).
+    assert (Hps : forall p' x, cnt x (psown (upd ps u p')) + cnt x (pown p) = cnt x (psown ps) + cnt x (pown p')).
+    { intros p' x. pose proof (psown_upd ps u p' x) as H. apply Nat.ltb_lt in Hul. rewrite Hul in H. exact H. }
+    set (p0 := mkPr (pkd p) (pheld p) None None 0).
+    set (R := g :: pv' ++ G).
+    set (Q := psown (upd ps u p0) ++ R).
+    assert (HL0 : LI (optl (pgv p) ++ optl (pfv p) ++ Q) s).
+    { apply (LI_eq _ _ _ HL). intro x. pose proof (Hps p0 x) as H. unfold pown in H; simpl in H.
+      unfold Q, R. autorewrite with cntdb in *. lia. }
+    apply safe_bind. eapply safe_weaken; [apply (li_free_opt _ (optl (pfv p) ++ Q) s (pgv p) HL0); ms|].
+    intros u1 s1 HL1.
+    apply safe_bind.
+    assert (Hmid : safe (if negb (pfn p =? freqs)
+                         then free (pfv p) ;;; (if freqs =? 0 then ret (Some (None, 0))
+                                                else m <- malloc (Z.of_nat freqs * 8) ;;
+                                                     ret (match m with None => None | Some b => Some (Some b, freqs) end))
+                         else ret (Some (pfv p, pfn p))) s1
+                    (fun r s' => match r with
+                                 | None => LI Q s'
+                                 | Some (fv, fn) => LI (optl fv ++ Q) s' /\ (fn <> 0 -> fv <> None) /\ (freqs <> 0 -> fn = freqs)
+                                 end)).
+    { destruct (negb (pfn p =? freqs)) eqn:Hne.
+      - apply safe_bind. eapply safe_weaken; [apply (li_free_opt _ Q s1 (pfv p) HL1); ms|].
+        intros u2 s2 HL2. destruct (freqs =? 0) eqn:Hz.
+        + apply safe_ret. split; [exact HL2|]. split; [intro H; congruence | intro H; apply Nat.eqb_eq in Hz; lia].
+        + apply safe_bind. eapply safe_weaken; [apply li_malloc; exact HL2|]. intros [b|] s3 HL3; apply safe_ret.
+          * split; [exact HL3|]. split; [intro; discriminate | auto].
+          * exact HL3.
+      - apply safe_ret. split; [exact HL1|]. split; [apply (proj2 Hc) | intro H; apply negb_false_iff, Nat.eqb_eq in Hne; auto]. }
+    eapply safe_weaken; [exact Hmid|]. clear Hmid. intros [[fv fn]|] s2 H2.
+    + destruct H2 as [HL2 [Hfv Hfn]].
+      apply safe_bind.
+      assert (Htouch : safe (if freqs =? 0 then ret tt else touch fv) s2 (fun _ s' => s' = s2)).
+      { destruct (freqs =? 0) eqn:Hz; [apply safe_ret; auto|].
+        apply Nat.eqb_neq in Hz. destruct fv as [b|].
+        - eapply li_touch; [exact HL2|]. autorewrite with cntdb. rewrite ind_same. lia.
+        - exfalso. apply Hfv; auto. rewrite (Hfn Hz). exact Hz. }
+      eapply safe_weaken; [exact Htouch|]. intros u3 s3 ->.
+      apply safe_bind.
+      set (p2 := mkPr (pkd p) (pheld p) fv (Some g) fn).
+      assert (HL3 : LI (psown (upd ps u p2) ++ pv' ++ G) s2).
+      { apply (LI_eq _ _ _ HL2). intro x. pose proof (Hps p0 x) as H0. pose proof (Hps p2 x) as H2.
+        unfold pown in H0, H2; simpl in H0, H2. unfold Q, R. autorewrite with cntdb in *. lia. }
+      eapply safe_weaken; [apply (IH freqs (upd ps u p2) pv' G s2 HL3)|].
+      * apply cfgok_upd; auto.
+      * intros u' Hin. rewrite length_upd2. apply Hu; simpl; auto.
+      * simpl in Hlen; lia.
+      * intros [[ok ps'] pv''] s4 [H4 [H5 H6]]. apply safe_ret. split; [exact H4|]. split; auto. rewrite H6. apply length_upd2.
+    + apply safe_ret. split; [exact H2|]. split; [apply cfgok_upd; auto; simpl; congruence | apply length_upd2].
+Qed.
+
+Lemma li_frees3 : forall a b c own own' s, LI own s -> (forall x, cnt x own = cnt x a + cnt x b + cnt x c + cnt x own') ->
+  safe (frees (rev a) ;;; frees (rev b) ;;; frees (rev c)) s (fun _ s' => LI own' s').
+Proof.
+  intros a b c own own' s HL He.
+  apply safe_bind. eapply safe_weaken; [apply (li_frees (rev a) own (b ++ c ++ own') s HL); ms|]. intros u1 s1 H1.
+  apply safe_bind. eapply safe_weaken; [apply (li_frees (rev b) _ (c ++ own') s1 H1); ms|]. intros u2 s2 H2.
+  eapply safe_weaken; [apply (li_frees (rev c) _ own' s2 H2); ms|]. auto.
+Qed.
+
+Definition SPost (F : list block_id) (v : vnew) (ps : list prm) (r : vnew * list prm * outcome) (s' : astate) : Prop :=
+  let '(v', ps', out) := r in Post F v' ps' s' /\ length ps' = length ps /\ UOK v' ps'.
+
+Lemma li_alloc_opt : forall (c : bool) sz own s, LI own s ->
+  safe (allocl (if c then [sz] else []) []) s (fun r s' => LI (snd r ++ own) s' /\ (fst r = false -> snd r = [])).
+Proof.
+  intros c sz own s HL. destruct c; simpl.
+  - apply safe_bind. eapply safe_weaken; [apply li_malloc; exact HL|]. intros [b|] s' HL'; apply safe_ret; simpl; auto. split; auto; discriminate.
+  - apply safe_ret; simpl; split; auto; discriminate.
+Qed.
+
+Arguments allocl : simpl never.
+
+Lemma li_solve : forall F v ps body trl s, Post F v ps s -> UOK v ps ->
+  safe (solve NFixed v ps body trl) s (SPost F v ps).
+Proof.
+  intros F v ps body trl s HP HU. pose proof HP as [HL [Ht Hc]]. unfold solve. cbv zeta.
+  assert (Hsame : forall s0, LI (vown v ++ psown ps ++ F) s0 -> SPost F v ps (v, ps, Err ENOMEM) s0).
+  { intros s0 H0. split; [split; auto | split; auto]. }
+  destruct (vn_fvalid v); simpl; [|apply safe_ret; split; [exact HP | split; auto]].
+  set (O := vown v ++ psown ps ++ F) in *.
+  (* msv *)
+  apply safe_bind. eapply safe_weaken; [apply (li_alloc_opt true); exact HL|]. intros [ok0 sm0] s0 [HL0 Hsm0]; simpl in HL0, Hsm0.
+  destruct ok0; simpl.
+  2:{ rewrite (Hsm0 eq_refl) in HL0. apply safe_ret. apply Hsame; exact HL0. }
+  apply safe_bind. eapply safe_weaken; [apply li_allocl; exact HL0|].
+  intros [ok1 sm] s1 [n1 [Hsm HL1]]; simpl in Hsm; subst sm. destruct ok1; simpl.
+  2:{ apply safe_bind. eapply safe_weaken; [apply (li_frees (rev (sm0 ++ n1)) _ O s1 HL1); ms|]. intros u s2 H2. apply safe_ret. apply Hsame; exact H2. }
+  set (sm := sm0 ++ n1) in *.
+  assert (HL1' : LI (sm ++ O) s1) by (apply (LI_eq _ _ _ HL1); unfold sm; ms).
+  apply safe_bind. eapply safe_weaken; [apply li_allocl; exact HL1'|].
+  intros [ok2 sl] s2 [n2 [Hsl HL2]]; simpl in Hsl; subst sl. destruct ok2; simpl.
+  2:{ apply safe_bind. eapply safe_weaken; [apply (li_frees (rev n2) _ (sm ++ O) s2 HL2); ms|]. intros u s3 H3.
+      apply safe_bind. eapply safe_weaken; [apply (li_frees (rev sm) _ O s3 H3); ms|]. intros u' s4 H4. apply safe_ret. apply Hsame; exact H4. }
+  rename n2 into sl.
+  apply safe_bind. eapply safe_weaken; [apply li_allocl_len; exact HL2|].
+  intros [ok3 sp] s3 [n3 [Hsp [HL3 Hlen3]]]; simpl in Hsp; subst sp. rename n3 into sp. destruct ok3; simpl.
+  2:{ apply safe_bind. eapply safe_weaken; [apply (li_frees3 sp sl sm _ O s3 HL3); ms|]. intros u s4 H4. apply safe_ret. apply Hsame; exact H4. }
+  specialize (Hlen3 eq_refl).
+  apply safe_bind. eapply safe_weaken; [apply li_allocl; exact HL3|].
+  intros [ok4 cal] s4 [n4 [Hcal HL4]]; simpl in Hcal; subst cal. rename n4 into cal. destruct ok4; simpl.
+  2:{ apply safe_bind. eapply safe_weaken; [apply (li_frees (rev cal) _ (sp ++ sl ++ sm ++ O) s4 HL4); ms|]. intros u s5 H5.
+      apply safe_bind. eapply safe_weaken; [apply (li_frees3 sp sl sm _ O s5 H5); ms|]. intros u' s6 H6. apply safe_ret. apply Hsame; exact H6. }
+  apply safe_bind. eapply safe_weaken; [apply li_alloc_opt; exact HL4|].
+  intros [ok5 tb] s5 [HL5 Htb]; simpl in HL5, Htb. destruct ok5; simpl.
+  2:{ rewrite (Htb eq_refl) in HL5. simpl in HL5.
+      apply safe_bind. eapply safe_weaken; [apply (li_frees (rev cal) _ (sp ++ sl ++ sm ++ O) s5 HL5); ms|]. intros u s6 H6.
+      apply safe_bind. eapply safe_weaken; [apply (li_frees3 sp sl sm _ O s6 H6); ms|]. intros u' s7 H7. apply safe_ret. apply Hsame; exact H7. }
+  apply safe_bind. eapply safe_weaken; [apply li_allocl; exact HL5|].
+  intros [ok6 tm] s6 [n6 [Htm HL6]]; simpl in Htm; subst tm. rename n6 into tm.
+  apply safe_bind. eapply safe_weaken; [apply (li_frees tm _ (tb ++ cal ++ sp ++ sl ++ sm ++ O) s6 HL6); ms|]. intros u6 s7 HL7.
+  destruct ok6; simpl.
+  2:{ apply safe_bind. eapply safe_weaken; [apply (li_frees tb _ (cal ++ sp ++ sl ++ sm ++ O) s7 HL7); ms|]. intros u s8 H8.
+      apply safe_bind. eapply safe_weaken; [apply (li_frees (rev cal) _ (sp ++ sl ++ sm ++ O) s8 H8); ms|]. intros u' s9 H9.
+      apply safe_bind. eapply safe_weaken; [apply (li_frees3 sp sl sm _ O s9 H9); ms|]. intros u'' s10 H10. apply safe_ret. apply Hsame; exact H10. }
+  (* the write-back *)
+  set (hs := match sp with [] => [] | h :: _ => [h] end).
+  assert (Hoc : forall l, ocons (hd_error sp) l = hs ++ l) by (intro l; unfold hs; destruct sp; reflexivity).
+  assert (Hsp : forall x, cnt x sp = cnt x hs + cnt x (tl sp)) by (intro x; unfold hs; destruct sp; simpl; autorewrite with cntdb; lia).
+  assert (Hlen : length (vn_unk v) <= length (tl sp)).
+  { destruct (vn_unk v) as [|u0 l0]; [simpl; lia|]. destruct sp; simpl in Hlen3; [lia|]. rewrite repeat_length in Hlen3. simpl in *. lia. }
+  set (G := hs ++ tb ++ cal ++ sl ++ sm ++ vown v ++ F).
+  assert (HLw : LI (psown ps ++ tl sp ++ G) s7) by (apply (LI_eq _ _ _ HL7); unfold G, O; ms).
+  apply safe_bind. eapply safe_weaken; [apply (li_write_back (vn_unk v) (c_freqs (vn_cfg v)) ps (tl sp) G s7 HLw Hc HU Hlen)|].
+  intros [[okw ps'] pv'] s8 [HL8 [Hc8 Hlen8]]. rewrite Hoc.
+  destruct okw; simpl.
+  - apply safe_bind. eapply safe_weaken; [apply (li_frees (rev (vn_cal v)) _
+       (psown ps' ++ pv' ++ hs ++ tb ++ cal ++ sl ++ sm ++
+        (vn_blk v :: optl (vn_fvec v) ++ optl (vn_tab v) ++ map snd (vn_nodes v) ++ optl (vn_sysv v) ++ optl (vn_merr v) ++ vn_mblocks v ++ vn_eblocks v) ++ F) s8 HL8);
+       unfold G, vown; ms|]. intros u s9 H9.
+    apply safe_bind. eapply safe_weaken; [apply (li_frees tb _
+       (psown ps' ++ pv' ++ hs ++ cal ++ sl ++ sm ++
+        (vn_blk v :: optl (vn_fvec v) ++ optl (vn_tab v) ++ map snd (vn_nodes v) ++ optl (vn_sysv v) ++ optl (vn_merr v) ++ vn_mblocks v ++ vn_eblocks v) ++ F) s9 H9); ms|].
+    intros u' s10 H10.
+    apply safe_bind. eapply safe_weaken; [apply (li_frees3 (hs ++ pv') sl sm _ (vown (set_cal v cal) ++ psown ps' ++ F) s10 H10); unfold vown; simpl; ms|].
+    intros u'' s11 H11. apply safe_ret. split; [split; [exact H11 | split; [simpl; exact Ht | exact Hc8]] |].
+    split; [exact Hlen8|]. intros u0 Hin. rewrite Hlen8. apply HU. exact Hin.
+  - apply safe_bind. eapply safe_weaken; [apply (li_frees tb _ (psown ps' ++ pv' ++ hs ++ cal ++ sl ++ sm ++ vown v ++ F) s8 HL8); unfold G; ms|]. intros u s9 H9.
+    apply safe_bind. eapply safe_weaken; [apply (li_frees (rev cal) _ (psown ps' ++ pv' ++ hs ++ sl ++ sm ++ vown v ++ F) s9 H9); ms|]. intros u' s10 H10.
+    apply safe_bind. eapply safe_weaken; [apply (li_frees3 (hs ++ pv') sl sm _ (vown v ++ psown ps' ++ F) s10 H10); ms|].
+    intros u'' s11 H11. apply safe_ret. split; [split; [exact H11 | split; [exact Ht | exact Hc8]] |].
+    split; [exact Hlen8|]. intros u0 Hin. rewrite Hlen8. apply HU. exact Hin.
+Qed.
+
+(* ---------------------------------------------------------------- the world: every op, every history *)
+Definition WInv (w : world) (s : astate) : Prop :=
+  LI (wown w) s /\ cfgok (w_prm w) /\
+  forall h v, nth h (w_new w) None = Some v -> vn_tab v <> None /\ UOK v (w_prm w).
+
+Lemma nth_some_lt : forall (l : list (option vnew)) h v, nth h l None = Some v -> h < length l.
+Proof. intros l h v H. destruct (Nat.ltb_spec h (length l)); auto. rewrite nth_overflow in H by lia. discriminate. Qed.
+
+(* taking one calibration out of the ring / putting one back *)
+Lemma flat_take : forall news h v x, nth h news None = Some v ->
+  cnt x (flat_map oown news) = cnt x (vown v) + cnt x (flat_map oown (upd news h None)).
+Proof.
+  intros news h v x H. pose proof (cnt_flat_upd _ oown news h None None x (nth_some_lt _ _ _ H)) as E.
+  rewrite H in E. change (oown (Some v)) with (vown v) in E. change (oown None) with (@nil nat) in E. rewrite cnt_nil in E. unfold block_id in *. lia.
+Qed.
+Lemma flat_put : forall news h v o x, nth h news None = Some v ->
+  cnt x (flat_map oown (upd news h o)) = cnt x (oown o) + cnt x (flat_map oown (upd news h None)).
+Proof.
+  intros news h v o x H. pose proof (cnt_flat_upd _ oown news h o None x (nth_some_lt _ _ _ H)) as E.
+  pose proof (flat_take news h v x H) as E2. rewrite H in E. change (oown (Some v)) with (vown v) in E. unfold block_id in *. lia.
+Qed.
+
+Lemma winv_put : forall w h v v' ps' s', nth h (w_new w) None = Some v ->
+  LI (vown v' ++ psown ps' ++ flat_map oown (upd (w_new w) h None)) s' -> vn_tab v' <> None -> cfgok ps' ->
+  length ps' = length (w_prm w) -> UOK v' ps' ->
+  (forall h0 v0, nth h0 (w_new w) None = Some v0 -> vn_tab v0 <> None /\ UOK v0 (w_prm w)) ->
+  WInv (put w h (Some v') ps') s'.
+Proof.
+  intros w h v v' ps' s' Hh HL Ht Hc Hlen Hu Hall. unfold put, WInv, wown; simpl. split; [|split; auto].
+  - apply (LI_eq _ _ _ HL). intro x. autorewrite with cntdb. rewrite (flat_put _ _ _ (Some v') x Hh). simpl. lia.
+  - intros h0 v0 H0. destruct (Nat.eq_dec h h0) as [->|Hne].
+    + rewrite nth_upd_eq in H0 by (eapply nth_some_lt; eauto). inversion H0; subst; auto.
+    + rewrite nth_upd_ne in H0 by auto. destruct (Hall _ _ H0) as [A B]. split; auto. intros u Hin. rewrite Hlen. apply B; auto.
+Qed.
+
+Lemma winv_step : forall w op s, WInv w s -> safe (wstep NFixed w op) s (fun r s' => WInv (fst r) s').
+Proof.
+  intros w op s [HL [Hc Hall]]. destruct op as [c|h|h a|h a|h body trl|h]; simpl.
+  - (* vnacal_new_alloc *)
+    apply safe_bind.
+    assert (HL0 : LI (psown (w_prm w) ++ flat_map oown (w_new w)) s) by exact HL.
+    eapply safe_weaken; [apply (li_new_alloc (flat_map oown (w_new w)) c (w_prm w) s HL0 Hc)|].
+    intros [[ov ps'] out] s' [HL' [Hc' [Hlen' Hov]]].
+    assert (Hold : forall h0 v0, nth h0 (w_new w) None = Some v0 -> vn_tab v0 <> None /\ UOK v0 ps').
+    { intros h0 v0 H0. destruct (Hall _ _ H0) as [A B]. split; auto. intros u Hin. rewrite Hlen'. apply B; auto. }
+    destruct ov as [vn|]; apply safe_ret; unfold WInv, wown; simpl.
+    + split; [|split; auto].
+      * apply (LI_eq _ _ _ HL'). intro x. rewrite flat_map_app. simpl. autorewrite with cntdb. lia.
+      * intros h0 v0 H0. destruct (Nat.ltb_spec h0 (length (w_new w))).
+        -- rewrite app_nth1 in H0 by auto. apply (Hold h0 v0 H0).
+        -- rewrite app_nth2 in H0 by auto. destruct (h0 - length (w_new w)) as [|[|k]]; simpl in H0; try discriminate.
+           inversion H0; subst. apply Hov; reflexivity.
+    + split; [|split; auto]. apply (LI_eq _ _ _ HL'). intro x. simpl. autorewrite with cntdb. lia.
+  - (* set_frequency_vector *)
+    unfold handle. destruct (nth h (w_new w) None) as [v|] eqn:Hh; apply safe_ret; simpl; [|split; auto].
+    destruct (Hall _ _ Hh) as [A B].
+    apply (winv_put w h v (set_fvalid v) (w_prm w) s Hh); auto.
+    apply (LI_eq _ _ _ HL). intro x. unfold wown, vown. simpl. autorewrite with cntdb. rewrite (flat_take _ _ _ x Hh). unfold vown. autorewrite with cntdb. lia.
+  - (* add *)
+    unfold handle. destruct (nth h (w_new w) None) as [v|] eqn:Hh; [|apply safe_ret; simpl; split; auto].
+    destruct (Hall _ _ Hh) as [A B].
+    assert (HP : Post (flat_map oown (upd (w_new w) h None)) v (w_prm w) s).
+    { split; [|split; auto]. apply (LI_eq _ _ _ HL). intro x. unfold wown. autorewrite with cntdb. rewrite (flat_take _ _ _ x Hh). lia. }
+    apply safe_bind. eapply safe_weaken; [apply (li_add_standard _ v (w_prm w) a s HP)|].
+    intros [[v' ps'] out] s' [[HL' [Ht' Hc']] [Hlen' Hu']]. apply safe_ret. simpl.
+    apply (winv_put w h v v' ps' s' Hh); auto.
+  - (* set_m_error *)
+    unfold handle. destruct (nth h (w_new w) None) as [v|] eqn:Hh; [|apply safe_ret; simpl; split; auto].
+    destruct (Hall _ _ Hh) as [A B].
+    assert (HP : Post (flat_map oown (upd (w_new w) h None)) v (w_prm w) s).
+    { split; [|split; auto]. apply (LI_eq _ _ _ HL). intro x. unfold wown. autorewrite with cntdb. rewrite (flat_take _ _ _ x Hh). lia. }
+    apply safe_bind. eapply safe_weaken; [apply (li_set_m_error _ v (w_prm w) a s HP)|].
+    intros [v' out] s' [[HL' [Ht' Hc']] [_ Hunk]]. apply safe_ret. simpl in *.
+    apply (winv_put w h v v' (w_prm w) s' Hh); auto. intros u Hin. rewrite Hunk in Hin. apply B; auto.
+  - (* solve *)
+    unfold handle. destruct (nth h (w_new w) None) as [v|] eqn:Hh; [|apply safe_ret; simpl; split; auto].
+    destruct (Hall _ _ Hh) as [A B].
+    assert (HP : Post (flat_map oown (upd (w_new w) h None)) v (w_prm w) s).
+    { split; [|split; auto]. apply (LI_eq _ _ _ HL). intro x. unfold wown. autorewrite with cntdb. rewrite (flat_take _ _ _ x Hh). lia. }
+    apply safe_bind. eapply safe_weaken; [apply (li_solve _ v (w_prm w) body trl s HP B)|].
+    intros [[v' ps'] out] s' [[HL' [Ht' Hc']] [Hlen' Hu']]. apply safe_ret. simpl.
+    apply (winv_put w h v v' ps' s' Hh); auto.
+  - (* vnacal_new_free *)
+    unfold handle. destruct (nth h (w_new w) None) as [v|] eqn:Hh; [|apply safe_ret; simpl; split; auto].
+    destruct (Hall _ _ Hh) as [A B].
+    assert (HL0 : LI (vown v ++ psown (w_prm w) ++ flat_map oown (upd (w_new w) h None)) s).
+    { apply (LI_eq _ _ _ HL). intro x. unfold wown. autorewrite with cntdb. rewrite (flat_take _ _ _ x Hh). lia. }
+    apply safe_bind. eapply safe_weaken; [apply (li_new_free _ v (w_prm w) s HL0)|]; [intro H; congruence|].
+    intros ps' s' [HL' [Hc' Hlen']]. apply safe_ret. unfold put, WInv, wown; simpl. split; [exact HL' | split; auto].
+    intros h0 v0 H0. destruct (Nat.eq_dec h h0) as [->|Hne].
+    + rewrite nth_upd_eq in H0 by (eapply nth_some_lt; eauto). discriminate.
+    + rewrite nth_upd_ne in H0 by auto. destruct (Hall _ _ H0) as [A0 B0]. split; auto. intros u Hin. rewrite Hlen'. apply B0; auto.
+Qed.
+
+Lemma winv_run : forall ops w s, WInv w s -> safe (wrun NFixed w ops) s (fun r s' => WInv (fst r) s').
+Proof.
+  induction ops as [|op ops IH]; intros w s HI; simpl.
+  - apply safe_ret; exact HI.
+  - apply safe_bind. eapply safe_weaken; [apply winv_step; exact HI|].
+    intros [w' o] s' HI'; simpl in HI'.
+    apply safe_bind. eapply safe_weaken; [apply IH; exact HI'|].
+    intros [w'' os] s'' HI''; simpl in *. apply safe_ret; exact HI''.
+Qed.
+
+(* vnacal_free: the ring ... *)
+Lemma li_free_ring : forall l ps R s, LI (psown ps ++ flat_map oown l ++ R) s -> cfgok ps ->
+  (forall v, In (Some v) l -> vn_tab v <> None) ->
+  safe (free_ring l ps) s (fun ps' s' => LI (psown ps' ++ R) s' /\ length ps' = length ps).
+Proof.
+  induction l as [|[v|] l IH]; intros ps R s HL Hc Ht; simpl.
+  - apply safe_ret; auto.
+  - apply safe_bind.
+    assert (HL0 : LI (vown v ++ psown ps ++ flat_map oown l ++ R) s) by (apply (LI_eq _ _ _ HL); simpl; ms).
+    eapply safe_weaken; [apply (li_new_free _ v ps s HL0)|].
+    { intro H. exfalso. apply (Ht v); simpl; auto. }
+    intros ps' s' [HL' [Hc' Hlen']].
+    eapply safe_weaken; [apply (IH ps' R s' HL' (Hc' Hc))|]; [intros v0 Hin; apply Ht; simpl; auto|].
+    intros ps'' s'' [H1 H2]. split; auto. congruence.
+  - apply IH; auto. intros v0 Hin; apply Ht; simpl; auto.
+Qed.
+
+(* ... then the parameters: one that nothing holds any more gives up its vectors *)
+Definition still_held (ps : list prm) : list prm := filter (fun p => negb (pheld p =? 0)) ps.
+
+Lemma li_free_prms : forall ps R s, LI (psown ps ++ R) s ->
+  safe (free_prms ps) s (fun _ s' => LI (psown (still_held ps) ++ R) s').
+Proof.
+  induction ps as [|p ps IH]; intros R s HL.
+  - apply safe_ret; exact HL.
+  - assert (HL' : LI (optl (pfv p) ++ optl (pgv p) ++ psown ps ++ R) s).
+    { apply (LI_eq _ _ _ HL). intro x. unfold psown, pown. simpl. autorewrite with cntdb. lia. }
+    assert (Hsh : still_held (p :: ps) = if negb (pheld p =? 0) then p :: still_held ps else still_held ps) by reflexivity.
+    rewrite Hsh. cbn [free_prms]. apply safe_bind. destruct (pheld p =? 0); cbn [negb].
+    + apply safe_bind. eapply safe_weaken; [apply (li_free_opt _ (optl (pgv p) ++ psown ps ++ R) s (pfv p) HL')|]; [ms|].
+      intros u s1 H1. eapply safe_weaken; [apply (li_free_opt _ (psown ps ++ R) s1 (pgv p) H1)|]; [ms|].
+      intros u' s2 H2. apply IH; exact H2.
+    + apply safe_ret.
+      assert (HL0 : LI (psown ps ++ (optl (pfv p) ++ optl (pgv p)) ++ R) s) by (apply (LI_eq _ _ _ HL'); ms).
+      eapply safe_weaken; [apply (IH ((optl (pfv p) ++ optl (pgv p)) ++ R) s HL0)|].
+      intros u s1 H1. apply (LI_eq _ _ _ H1). intro x. unfold psown, pown. simpl. autorewrite with cntdb. lia.
+Qed.
+
+Lemma LI_nil_live : forall s, LI [] s -> live s = [].
+Proof.
+  intros s [_ H]. apply ids_nil_live_nil. intros x Hx. apply cnt_in in Hx. rewrite <- H in Hx. rewrite cnt_nil in Hx. lia.
+Qed.
+
+Lemma cfgok_mkprms : forall ks, cfg_ok ks -> cfgok (mkprms ks).
+Proof.
+  intros ks H. unfold mkprms. split.
+  - intros i o Ho. apply H. destruct (Nat.ltb_spec i (length ks)).
+    + rewrite (nth_indep _ pdummy (mkPr KScalar 0 None None 0)) in Ho by (rewrite map_length; auto).
+      change (mkPr KScalar 0 None None 0) with ((fun k => mkPr k 0 None None 0) KScalar) in Ho. rewrite map_nth in Ho. exact Ho.
+    + rewrite nth_overflow in Ho by (rewrite map_length; auto). discriminate.
+  - intros i Hi. exfalso. apply Hi. destruct (Nat.ltb_spec i (length ks)).
+    + rewrite (nth_indep _ pdummy (mkPr KScalar 0 None None 0)) by (rewrite map_length; auto).
+      change (mkPr KScalar 0 None None 0) with ((fun k => mkPr k 0 None None 0) KScalar). rewrite map_nth. reflexivity.
+    + rewrite nth_overflow by (rewrite map_length; auto). reflexivity.
+Qed.
+
+Lemma psown_mkprms : forall ks, psown (mkprms ks) = [].
+Proof. induction ks; simpl; auto. Qed.
+
+(* the whole history, for every creation-ordered parameter set, every op list, every fault point *)
+Lemma whistory_safe : forall ks ops k, cfg_ok ks ->
+  safe (whistory NFixed ks ops) (start k) (fun r s' => (forall h, In h (snd r) -> h = 0) -> live s' = []).
+Proof.
+  intros ks ops k Hk. unfold whistory.
+  assert (HI : WInv (mkW (mkprms ks) []) (start k)).
+  { split; [|split; [apply cfgok_mkprms; auto | intros h v H; destruct h; discriminate]].
+    unfold wown; simpl. rewrite psown_mkprms. split; [apply wf_start | intro x; reflexivity]. }
+  apply safe_bind. eapply safe_weaken; [apply winv_run; exact HI|].
+  intros [w os] s1 [HL [Hc Hall]]; simpl in *.
+  apply safe_bind. unfold wfinish. apply safe_bind.
+  assert (HL0 : LI (psown (w_prm w) ++ flat_map oown (w_new w) ++ []) s1) by (apply (LI_eq _ _ _ HL); unfold wown; ms).
+  eapply safe_weaken; [apply (li_free_ring (w_new w) (w_prm w) [] s1 HL0 Hc)|].
+  { intros v Hin. destruct (In_nth _ _ None Hin) as [h [_ Hh]]. apply (Hall h v Hh). }
+  intros ps' s2 [HL2 _].
+  apply safe_bind. eapply safe_weaken; [apply (li_free_prms ps' [] s2 HL2)|].
+  intros u s3 HL3. apply safe_ret. apply safe_ret. simpl. intro Hheld.
+  apply LI_nil_live. apply (LI_eq _ _ _ HL3).
+  assert (Hs : still_held ps' = []).
+  { clear - Hheld. induction ps' as [|p ps IH]; simpl; auto.
+    rewrite (Hheld (pheld p)) by (simpl; auto). simpl. apply IH. intros h Hin. apply Hheld; simpl; auto. }
+  rewrite Hs. intro x; reflexivity.
+Qed.
+
+Theorem new_no_fault_lemma : forall ks ops k f, cfg_ok ks -> whistory NFixed ks ops (start k) <> Fault f.
+Proof.
+  intros ks ops k f Hk H. destruct (whistory_safe ks ops k Hk) as [a [s' [He _]]]. rewrite He in H; discriminate.
+Qed.
+
+Theorem new_no_leak_lemma : forall ks ops k os held s', cfg_ok ks ->
+  whistory NFixed ks ops (start k) = Ok ((os, held), s') -> (forall h, In h held -> h = 0) -> live s' = [].
+Proof.
+  intros ks ops k os held s' Hk H Hh. destruct (whistory_safe ks ops k Hk) as [a [s2 [He Hl]]].
+  rewrite He in H; inversion H; subst. apply Hl. exact Hh.
+Qed.
+
+Theorem new_fault_clean_lemma : forall w op s, WInv w s ->
+  exists w' o s', wstep NFixed w op s = Ok ((w', o), s') /\ WInv w' s'.
+Proof.
+  intros w op s HI. destruct (winv_step w op s HI) as [[w' o] [s' [He HI']]]. exists w', o, s'; auto.
 Qed.
